@@ -143,3 +143,315 @@ Proof.
   rewrite R. replace (IZR (Z.of_nat n) / IZR tpb * (1 + e) - IZR (Z.of_nat n) / IZR tpb) with (e * (IZR (Z.of_nat n) / IZR tpb)) by ring.
   rewrite Rabs_mult. rewrite (Rabs_pos_eq _ P). apply Rmult_le_compat_r; assumption.
 Qed.
+
+(** * The relative tick grid (repair C01-retick-snap): isobar.util.advance_on_tick_grid
+
+   def advance_on_tick_grid(current_time, ticks_per_beat, grid):
+       origin, grid_ticks_per_beat = grid
+       if grid_ticks_per_beat is None: grid_ticks_per_beat = ticks_per_beat
+       position = (current_time - origin) * ticks_per_beat
+       if grid_ticks_per_beat != ticks_per_beat or abs(position - round(position)) > 1e-6:
+           origin, position = current_time, 0
+       return origin + (round(position) + 1) / ticks_per_beat, (origin, ticks_per_beat)
+
+   Model: every float operation one RN; float - int and float * int convert the int exactly (|int| < 2^53);
+   round(position) = pyround; abs is exact; the literal 1e-6 is the double nearest to 10^-6, RN (1 / 10^6);
+   int + 1 exact; (int) / (int) correctly rounded; origin + <that> one more float addition.
+   The old theorems above (grid_step) are kept: with a constant resolution the two computations agree
+   (tick_run_exact below gives the same RN (n / tpb)). *)
+
+Global Instance prec53_gt_0 : Prec_gt_0 53 := eq_refl.
+Lemma fexp64_valid : Valid_exp fexp64.
+Proof. unfold fexp64. apply FLT_exp_valid. exact prec53_gt_0. Qed.
+
+Lemma RN_le x y : x <= y -> RN x <= RN y.
+Proof. intros H. unfold RN. apply round_le; [exact fexp64_valid | apply valid_rnd_N | exact H]. Qed.
+
+Lemma RN_0 : RN 0 = 0.
+Proof. unfold RN. apply round_0. apply valid_rnd_N. Qed.
+
+Lemma RN_opp x : RN (- x) = - RN x.
+Proof. unfold RN. apply round_NE_opp. Qed.
+
+Lemma RN_format x : generic_format radix2 fexp64 (RN x).
+Proof. unfold RN. apply generic_format_round. exact fexp64_valid. apply valid_rnd_N. Qed.
+
+Lemma RN_generic x : generic_format radix2 fexp64 x -> RN x = x.
+Proof. intros H. unfold RN. apply round_generic. apply valid_rnd_N. exact H. Qed.
+
+Lemma RN_idem x : RN (RN x) = RN x.
+Proof. apply RN_generic. apply RN_format. Qed.
+
+(* the double nearest to the literal 1e-6 *)
+Definition c6 : R := RN (1 / 10 ^ 6).
+
+Lemma c6_ge : bpow radix2 (-20) <= c6.
+Proof.
+  unfold c6, RN. apply round_ge_generic; [exact fexp64_valid | apply valid_rnd_N | |].
+  - apply generic_format_bpow. unfold fexp64, FLT_exp. lia.
+  - change (bpow radix2 (-20)) with (/ 1048576). simpl. lra.
+Qed.
+
+Definition advance_core (t : R) (tpb : Z) (origin : R) (g : Z) : R * (R * Z) :=
+  let position := RN (RN (t - origin) * IZR tpb) in
+  if orb (negb (g =? tpb)%Z) (Rlt_bool c6 (Rabs (RN (position - IZR (pyround position)))))
+  then (RN (t + RN (IZR (0 + 1) / IZR tpb)), (t, tpb))
+  else (RN (origin + RN (IZR (pyround position + 1) / IZR tpb)), (origin, tpb)).
+
+Definition advance (t : R) (tpb : Z) (origin : R) (g : option Z) : R * (R * Z) :=
+  match g with
+  | None => advance_core t tpb origin tpb
+  | Some g0 => advance_core t tpb origin g0
+  end.
+
+(* a clock: (current_time, _tick_grid); initially (0.0, (0.0, None)) *)
+Definition clock : Type := R * (R * option Z).
+Definition clock0 : clock := (0, (0, None)).
+(* self.current_time, self._tick_grid = advance_on_tick_grid(self.current_time, tpb, self._tick_grid) *)
+Definition tick_step (tpb : Z) (c : clock) : clock :=
+  let '(t, (o, g)) := c in let '(t', (o', g')) := advance t tpb o g in (t', (o', Some g')).
+
+(* if the position is within 2^-20 of the whole number m, round() finds m and the off-grid test does not fire *)
+Lemma advance_tail (position : R) (m : Z) :
+  Rabs (position - IZR m) <= bpow radix2 (-20) ->
+  pyround position = m /\ Rlt_bool c6 (Rabs (RN (position - IZR m))) = false.
+Proof.
+  intros H. split.
+  - unfold pyround. apply Znearest_imp. eapply Rle_lt_trans. exact H. change (bpow radix2 (-20)) with (/ 1048576). lra.
+  - apply Rlt_bool_false. eapply Rle_trans; [|exact c6_ge].
+    unfold RN. apply abs_round_le_generic; [exact fexp64_valid | apply valid_rnd_N | | exact H].
+    apply generic_format_bpow. unfold fexp64, FLT_exp. lia.
+Qed.
+
+(* (a) constant resolution, grid anchored at 0 *)
+Lemma advance_core_const (tpb k : Z) :
+  (1 <= tpb <= 2^20)%Z -> (0 <= k < 2^32)%Z ->
+  advance_core (RN (IZR k / IZR tpb)) tpb 0 tpb = (RN (IZR (k + 1) / IZR tpb), (0, tpb)).
+Proof.
+  intros Htpb Hk. unfold advance_core. rewrite Z.eqb_refl. simpl negb. simpl orb.
+  rewrite Rminus_0_r, RN_idem.
+  assert (T1 : 1 <= IZR tpb) by (apply IZR_le; lia).
+  assert (T2 : IZR tpb <= 1048576) by (apply IZR_le; lia).
+  assert (P : Rabs (RN (RN (IZR k / IZR tpb) * IZR tpb) - IZR k) <= bpow radix2 (-20)).
+  { destruct (Z.eq_dec k 0) as [->|Hk0].
+    - unfold Rdiv. rewrite Rmult_0_l, RN_0, Rmult_0_l, RN_0. rewrite Rminus_0_r, Rabs_R0. apply bpow_ge_0.
+    - assert (K1 : 1 <= IZR k) by (apply IZR_le; lia).
+      assert (K2 : IZR k <= 4294967295) by (apply IZR_le; lia).
+      assert (Hinv : / 1048576 <= / IZR tpb <= 1).
+      { split. apply Rinv_le_contravar; lra. rewrite <- Rinv_1. apply Rinv_le_contravar; lra. }
+      destruct (RN_eps (IZR k / IZR tpb)) as [e1 [E1 R1]].
+      { right. eapply Rle_trans. apply bpow_m1022_small. change (bpow radix2 (-22)) with (/ 4194304).
+        rewrite Rabs_pos_eq; unfold Rdiv; nra. }
+      rewrite R1.
+      assert (X : IZR k / IZR tpb * (1 + e1) * IZR tpb = IZR k * (1 + e1)) by (field; lra).
+      rewrite X. change (bpow radix2 (-53)) with (/ 9007199254740992) in E1. apply Rabs_le_inv in E1.
+      destruct (RN_eps (IZR k * (1 + e1))) as [e4 [E4 R4]].
+      { right. eapply Rle_trans. apply bpow_m1022_small. change (bpow radix2 (-22)) with (/ 4194304).
+        rewrite Rabs_pos_eq; nra. }
+      rewrite R4. change (bpow radix2 (-53)) with (/ 9007199254740992) in E4. apply Rabs_le_inv in E4.
+      change (bpow radix2 (-20)) with (/ 1048576).
+      replace (IZR k * (1 + e1) * (1 + e4) - IZR k) with (IZR k * (e1 + e4 + e1 * e4)) by ring.
+      set (u := / 9007199254740992) in *.
+      assert (EE : - (u * u) <= e1 * e4 <= u * u) by (unfold u in *; nra).
+      assert (S1 : - (2 * u + u * u) <= e1 + e4 + e1 * e4 <= 2 * u + u * u) by lra.
+      assert (C : 4294967295 * (2 * u + u * u) <= / 1048576) by (unfold u; lra).
+      apply Rabs_le. unfold u in *. nra. }
+  destruct (advance_tail _ _ P) as [Q1 Q2]. rewrite Q1, Q2.
+  rewrite Rplus_0_l, RN_idem. reflexivity.
+Qed.
+
+(* (b) a grid anchored at an arbitrary double t0 >= 0: from t0 + RN (m / tpb) to t0 + RN ((m+1) / tpb), as long as
+   the clock, counted in ticks of the resolution in force, stays below 2^30 *)
+Lemma advance_core_anchored (tpb m : Z) (t0 : R) :
+  (1 <= tpb <= 2^20)%Z -> (0 <= m)%Z -> generic_format radix2 fexp64 t0 -> 0 <= t0 ->
+  IZR tpb * t0 + IZR m <= 1073741824 ->
+  advance_core (RN (t0 + RN (IZR m / IZR tpb))) tpb t0 tpb = (RN (t0 + RN (IZR (m + 1) / IZR tpb)), (t0, tpb)).
+Proof.
+  intros Htpb Hm F0 P0 Hb. unfold advance_core. rewrite Z.eqb_refl. simpl negb. simpl orb.
+  assert (T1 : 1 <= IZR tpb) by (apply IZR_le; lia).
+  assert (T2 : IZR tpb <= 1048576) by (apply IZR_le; lia).
+  set (t := RN (t0 + RN (IZR m / IZR tpb))).
+  assert (P : Rabs (RN (RN (t - t0) * IZR tpb) - IZR m) <= bpow radix2 (-20)).
+  { unfold t. destruct (Z.eq_dec m 0) as [->|Hm0].
+    - unfold Rdiv. rewrite Rmult_0_l, RN_0, Rplus_0_r, (RN_generic t0 F0).
+      replace (t0 - t0) with 0 by ring. rewrite RN_0, Rmult_0_l, RN_0, Rminus_0_r, Rabs_R0. apply bpow_ge_0.
+    - assert (M1 : 1 <= IZR m) by (apply IZR_le; lia).
+      assert (M2 : IZR m <= 1073741824) by nra.
+      assert (Hinv : / 1048576 <= / IZR tpb <= 1).
+      { split. apply Rinv_le_contravar; lra. rewrite <- Rinv_1. apply Rinv_le_contravar; lra. }
+      assert (B22 : bpow radix2 (-22) = / 4194304) by reflexivity.
+      assert (MP : / 1048576 <= IZR m / IZR tpb) by (unfold Rdiv; nra).
+      destruct (RN_eps (IZR m / IZR tpb)) as [e3 [E3 R3]].
+      { right. eapply Rle_trans. apply bpow_m1022_small. rewrite B22. rewrite Rabs_pos_eq; lra. }
+      change (bpow radix2 (-53)) with (/ 9007199254740992) in E3. apply Rabs_le_inv in E3.
+      set (u := / 9007199254740992) in *.
+      set (d := RN (IZR m / IZR tpb)) in *.
+      assert (D1 : / 2097152 <= d) by (rewrite R3; unfold u in *; nra).
+      destruct (RN_eps (t0 + d)) as [e1 [E1 R1]].
+      { right. eapply Rle_trans. apply bpow_m1022_small. rewrite B22. rewrite Rabs_pos_eq; lra. }
+      change (bpow radix2 (-53)) with u in E1. apply Rabs_le_inv in E1.
+      (* W = tpb * (t0 + d): the clock in ticks *)
+      set (W := IZR tpb * (t0 + d)).
+      assert (PD : IZR tpb * d = IZR m * (1 + e3)) by (rewrite R3; field; lra).
+      assert (W1 : 0 <= W <= 2147483648) by (unfold W, u in *; nra).
+      (* y = t - t0 *)
+      assert (Y : IZR tpb * (RN (t0 + d) - t0) = IZR m * (1 + e3) + W * e1).
+      { rewrite R1. unfold W. rewrite <- PD. ring. }
+      assert (Y1 : / 2 <= IZR tpb * (RN (t0 + d) - t0)).
+      { rewrite Y. assert (- (2147483648 * u) <= W * e1) by (unfold u in *; nra). unfold u in *; nra. }
+      assert (Y2 : / 2097152 <= RN (t0 + d) - t0) by nra.
+      destruct (RN_eps (RN (t0 + d) - t0)) as [e2 [E2 R2]].
+      { right. eapply Rle_trans. apply bpow_m1022_small. rewrite B22. rewrite Rabs_pos_eq; lra. }
+      change (bpow radix2 (-53)) with u in E2. rewrite R2.
+      destruct (RN_eps ((RN (t0 + d) - t0) * (1 + e2) * IZR tpb)) as [e4 [E4 R4]].
+      { right. eapply Rle_trans. apply bpow_m1022_small. rewrite B22.
+        assert (E2' := Rabs_le_inv _ _ E2).
+        assert (/ 2097152 * / 2 <= (RN (t0 + d) - t0) * (1 + e2)) by (apply Rmult_le_compat; unfold u in *; lra).
+        rewrite Rabs_pos_eq; nra. }
+      change (bpow radix2 (-53)) with u in E4. rewrite R4.
+      replace ((RN (t0 + d) - t0) * (1 + e2) * IZR tpb * (1 + e4) - IZR m)
+        with (IZR m * ((1 + e3) * (1 + e2) * (1 + e4) - 1) + W * (e1 * ((1 + e2) * (1 + e4)))).
+      2:{ replace ((RN (t0 + d) - t0) * (1 + e2) * IZR tpb * (1 + e4))
+            with (IZR tpb * (RN (t0 + d) - t0) * ((1 + e2) * (1 + e4))) by ring.
+          rewrite Y. ring. }
+      assert (E3a : Rabs e3 <= bpow radix2 (-53)) by (apply Rabs_le; exact E3).
+      pose proof (three_eps e3 e2 e4 E3a E2 E4) as A.
+      change (bpow radix2 (-51)) with (/ 2251799813685248) in A. apply Rabs_le_inv in A.
+      apply Rabs_le_inv in E2. apply Rabs_le_inv in E4.
+      assert (Q : 0 <= (1 + e2) * (1 + e4) <= 2) by (unfold u in *; nra).
+      assert (B : - (2 * u) <= e1 * ((1 + e2) * (1 + e4)) <= 2 * u) by (unfold u in *; nra).
+      set (a := (1 + e3) * (1 + e2) * (1 + e4) - 1) in *. set (b := e1 * ((1 + e2) * (1 + e4))) in *.
+      assert (MA : - (1073741824 * / 2251799813685248) <= IZR m * a <= 1073741824 * / 2251799813685248) by nra.
+      assert (WB : - (2147483648 * (2 * u)) <= W * b <= 2147483648 * (2 * u)) by (unfold u in *; nra).
+      change (bpow radix2 (-20)) with (/ 1048576). apply Rabs_le. unfold u in *. lra. }
+  destruct (advance_tail _ _ P) as [Q1 Q2]. rewrite Q1, Q2. reflexivity.
+Qed.
+
+(** (a) constant resolution from time 0: the time after n ticks is the correctly rounded n / tpb, the grid stays
+    anchored at 0.0 and the off-grid test never fires - for all tpb <= 2^20 and n <= 2^32 ticks (51 days at 480 ticks
+    per beat and 120 bpm).  The bound is what the test `> 1e-6` allows: position = RN (RN (k/tpb) * tpb) is only known
+    to be within k (2^-52 + 2^-106) of k, which is below 2^-20 <= RN(1e-6) exactly for k < 2^32.  The bound is sharp up
+    to a small factor: e.g. tpb = 480, k = 545317434769 (about 2^39): (k / 480) * 480 - k = 6.1e-5 > 1e-6 in binary64, so
+    there the code re-anchors the grid at the current time - harmless for the music (the time is still origin + m / tpb
+    with one addition, retick_run_exact's form) but not the statement below; 2^39 ticks are 18 years at 960 ticks/s. *)
+Theorem tick_run_exact (tpb : Z) (n : nat) :
+  (1 <= tpb <= 2^20)%Z -> (1 <= n)%nat -> (Z.of_nat n <= 2^32)%Z ->
+  Nat.iter n (tick_step tpb) clock0 = (RN (IZR (Z.of_nat n) / IZR tpb), (0, Some tpb)).
+Proof.
+  intros Htpb. induction n as [|n IH]; intros H1 Hn. lia.
+  destruct n as [|n].
+  - simpl Nat.iter. unfold tick_step, clock0, advance.
+    pose proof (advance_core_const tpb 0 Htpb ltac:(lia)) as A.
+    unfold Rdiv at 1 in A. rewrite Rmult_0_l, RN_0 in A. rewrite A. reflexivity.
+  - change (Nat.iter (S (S n)) (tick_step tpb) clock0) with (tick_step tpb (Nat.iter (S n) (tick_step tpb) clock0)).
+    rewrite IH by lia. unfold tick_step, advance.
+    rewrite (advance_core_const tpb (Z.of_nat (S n)) Htpb ltac:(lia)).
+    replace (Z.of_nat (S n) + 1)%Z with (Z.of_nat (S (S n))) by lia. reflexivity.
+Qed.
+
+Corollary tick_run_time (tpb : Z) (n : nat) :
+  (1 <= tpb <= 2^20)%Z -> (Z.of_nat n <= 2^32)%Z ->
+  fst (Nat.iter n (tick_step tpb) clock0) = RN (IZR (Z.of_nat n) / IZR tpb).
+Proof.
+  intros Htpb Hn. destruct n as [|n].
+  - simpl. unfold Rdiv. rewrite Rmult_0_l, RN_0. reflexivity.
+  - rewrite tick_run_exact by (try assumption; lia). reflexivity.
+Qed.
+
+(* the old and the new computation agree at constant resolution *)
+Corollary tick_run_is_grid_run (tpb : Z) (n : nat) :
+  (1 <= tpb <= 2^20)%Z -> (Z.of_nat n <= 2^32)%Z ->
+  fst (Nat.iter n (tick_step tpb) clock0) = Nat.iter n (grid_step tpb) 0.
+Proof.
+  intros Htpb Hn. rewrite tick_run_time by assumption. rewrite grid_run_exact. reflexivity. assumption. lia.
+Qed.
+
+(** (b) change of resolution at an arbitrary time t0 (any double >= 0): the clock held the grid (o, g) with g <> tpb2;
+    the grid re-anchors at t0 and after m >= 1 ticks at tpb2 the time is RN (t0 + RN (m / tpb2)): one float addition from
+    the exact origin - the error does not grow with m.  Hypothesis: the clock counted in new ticks, tpb2 * t0 + m, stays
+    below 2^30 (so that the off-grid test does not fire spuriously). *)
+Theorem retick_run_exact (tpb2 g : Z) (t0 o : R) (m : nat) :
+  (1 <= tpb2 <= 2^20)%Z -> g <> tpb2 -> generic_format radix2 fexp64 t0 -> 0 <= t0 ->
+  (1 <= m)%nat -> IZR tpb2 * t0 + IZR (Z.of_nat m) <= 1073741824 ->
+  Nat.iter m (tick_step tpb2) (t0, (o, Some g)) = (RN (t0 + RN (IZR (Z.of_nat m) / IZR tpb2)), (t0, Some tpb2)).
+Proof.
+  intros Htpb Hg F0 P0. induction m as [|m IH]; intros H1 Hb. lia.
+  destruct m as [|m].
+  - simpl Nat.iter. unfold tick_step, advance, advance_core.
+    apply Z.eqb_neq in Hg. rewrite Hg. simpl negb. simpl orb. reflexivity.
+  - change (Nat.iter (S (S m)) (tick_step tpb2) (t0, (o, Some g)))
+      with (tick_step tpb2 (Nat.iter (S m) (tick_step tpb2) (t0, (o, Some g)))).
+    assert (LE : IZR (Z.of_nat (S m)) <= IZR (Z.of_nat (S (S m)))) by (apply IZR_le; lia).
+    rewrite IH by (try lia; lra). unfold tick_step, advance.
+    rewrite (advance_core_anchored tpb2 (Z.of_nat (S m)) t0 Htpb ltac:(lia) F0 P0 ltac:(lra)).
+    replace (Z.of_nat (S m) + 1)%Z with (Z.of_nat (S (S m))) by lia. reflexivity.
+Qed.
+
+(* the distance from the exact time t0 + m / tpb2: two roundings, independent of m *)
+Corollary retick_run_error (tpb2 : Z) (t0 : R) (m : Z) :
+  (1 <= tpb2 <= 2^20)%Z -> 0 <= t0 -> (1 <= m)%Z ->
+  Rabs (RN (t0 + RN (IZR m / IZR tpb2)) - (t0 + IZR m / IZR tpb2))
+    <= (2 * bpow radix2 (-53) + bpow radix2 (-53) * bpow radix2 (-53)) * (t0 + IZR m / IZR tpb2).
+Proof.
+  intros Htpb P0 Hm.
+  assert (T1 : 1 <= IZR tpb2) by (apply IZR_le; lia).
+  assert (T2 : IZR tpb2 <= 1048576) by (apply IZR_le; lia).
+  assert (M1 : 1 <= IZR m) by (apply IZR_le; lia).
+  assert (Hinv : / 1048576 <= / IZR tpb2 <= 1).
+  { split. apply Rinv_le_contravar; lra. rewrite <- Rinv_1. apply Rinv_le_contravar; lra. }
+  assert (MP : / 1048576 <= IZR m / IZR tpb2) by (unfold Rdiv; nra).
+  destruct (RN_eps (IZR m / IZR tpb2)) as [e3 [E3 R3]].
+  { right. eapply Rle_trans. apply bpow_m1022_small. change (bpow radix2 (-22)) with (/ 4194304). rewrite Rabs_pos_eq; lra. }
+  change (bpow radix2 (-53)) with (/ 9007199254740992) in *. apply Rabs_le_inv in E3.
+  set (q := IZR m / IZR tpb2) in *. rewrite R3.
+  destruct (RN_eps (t0 + q * (1 + e3))) as [e1 [E1 R1]].
+  { right. eapply Rle_trans. apply bpow_m1022_small. change (bpow radix2 (-22)) with (/ 4194304). rewrite Rabs_pos_eq; nra. }
+  rewrite R1. change (bpow radix2 (-53)) with (/ 9007199254740992) in E1. apply Rabs_le_inv in E1.
+  replace ((t0 + q * (1 + e3)) * (1 + e1) - (t0 + q)) with (q * e3 * (1 + e1) + (t0 + q) * e1) by ring.
+  set (u := / 9007199254740992) in *.
+  assert (U0 : 0 < u) by (unfold u; lra).
+  assert (E31 : - (u * u) <= e3 * e1 <= u * u) by nra.
+  assert (EE : - (u * (1 + u)) <= e3 * (1 + e1) <= u * (1 + u)) by lra.
+  assert (Q1 : 0 <= q) by lra.
+  assert (A : - (q * (u * (1 + u))) <= q * (e3 * (1 + e1)) <= q * (u * (1 + u))).
+  { split. replace (- (q * (u * (1 + u)))) with (q * - (u * (1 + u))) by ring.
+    apply Rmult_le_compat_l; lra. apply Rmult_le_compat_l; lra. }
+  assert (TQ : 0 <= t0 + q) by lra.
+  assert (B : - ((t0 + q) * u) <= (t0 + q) * e1 <= (t0 + q) * u).
+  { split. replace (- ((t0 + q) * u)) with ((t0 + q) * - u) by ring.
+    apply Rmult_le_compat_l; lra. apply Rmult_le_compat_l; lra. }
+  assert (Q0 : q * (u * (1 + u)) <= (t0 + q) * (u * (1 + u))).
+  { apply Rmult_le_compat_r. nra. lra. }
+  replace (q * e3 * (1 + e1)) with (q * (e3 * (1 + e1))) by ring.
+  apply Rabs_le. unfold u in *. lra.
+Qed.
+
+(* every tick after the change lasts 1 / tpb2 up to that error: this is what the repair is for *)
+Corollary retick_tick_length (tpb2 : Z) (t0 : R) (m : Z) :
+  (1 <= tpb2 <= 2^20)%Z -> 0 <= t0 -> (1 <= m)%Z ->
+  Rabs (RN (t0 + RN (IZR (m + 1) / IZR tpb2)) - RN (t0 + RN (IZR m / IZR tpb2)) - 1 / IZR tpb2)
+    <= 2 * ((2 * bpow radix2 (-53) + bpow radix2 (-53) * bpow radix2 (-53)) * (t0 + IZR (m + 1) / IZR tpb2)).
+Proof.
+  intros Htpb P0 Hm.
+  pose proof (retick_run_error tpb2 t0 m Htpb P0 Hm) as A.
+  pose proof (retick_run_error tpb2 t0 (m + 1) Htpb P0 ltac:(lia)) as B.
+  assert (T1 : 1 <= IZR tpb2) by (apply IZR_le; lia).
+  assert (I0 : 0 < / IZR tpb2) by (apply Rinv_0_lt_compat; lra).
+  rewrite plus_IZR in *. unfold Rdiv in *.
+  change (bpow radix2 (-53)) with (/ 9007199254740992) in *.
+  set (c := 2 * / 9007199254740992 + / 9007199254740992 * / 9007199254740992) in *.
+  assert (C0 : 0 < c) by (unfold c; lra).
+  assert (LE : c * (t0 + IZR m * / IZR tpb2) <= c * (t0 + (IZR m + 1) * / IZR tpb2)) by nra.
+  apply Rabs_le_inv in A. apply Rabs_le_inv in B. apply Rabs_le. lra.
+Qed.
+
+(** (c) the timeline's clock and a track's clock, re-anchored at their own (different) times t0 and s0 by the same
+    change of resolution, stay in step: after m ticks both have advanced by the SAME float RN (m / tpb2) *)
+Corollary retick_in_step (tpb2 g g' : Z) (t0 o s0 o' : R) (m : nat) :
+  (1 <= tpb2 <= 2^20)%Z -> g <> tpb2 -> g' <> tpb2 ->
+  generic_format radix2 fexp64 t0 -> 0 <= t0 -> generic_format radix2 fexp64 s0 -> 0 <= s0 ->
+  (1 <= m)%nat -> IZR tpb2 * t0 + IZR (Z.of_nat m) <= 1073741824 -> IZR tpb2 * s0 + IZR (Z.of_nat m) <= 1073741824 ->
+  let d := RN (IZR (Z.of_nat m) / IZR tpb2) in
+  Nat.iter m (tick_step tpb2) (t0, (o, Some g)) = (RN (t0 + d), (t0, Some tpb2)) /\
+  Nat.iter m (tick_step tpb2) (s0, (o', Some g')) = (RN (s0 + d), (s0, Some tpb2)).
+Proof. intros. split; apply retick_run_exact; assumption. Qed.
